@@ -598,6 +598,61 @@ def r_flatmap(body):
         body = body[:j] + new + body[close2 + 1:]
 
 
+def r_continue(body):
+    """if C { continue; } REST  (statements of one loop body)  ->  if C { } else { REST }
+    (definition of `continue` when it is the only statement of an `if` directly in the loop body; R-continue)"""
+    log = []
+    guard = 0
+    while True:
+        guard += 1
+        if guard > 20:
+            raise Unsupported("R-continue: did not converge")
+        m = code_mask(body)
+        mo = None
+        for x in re.finditer(r"\bif\b", body):
+            if not m[x.start()]:
+                continue
+            # find the block of this if
+            k = x.end()
+            d = 0
+            while k < len(body) and not (m[k] and body[k] == "{" and d == 0):
+                if m[k] and body[k] in "([":
+                    d += 1
+                elif m[k] and body[k] in ")]":
+                    d -= 1
+                k += 1
+            if k >= len(body):
+                continue
+            ke = match_close(body, m, k)
+            if re.sub(r"\s+", "", body[k + 1:ke]) == "continue;":
+                mo = (x.start(), k, ke)
+                break
+        if mo is None:
+            return body, log
+        st, k, ke = mo
+        if re.match(r"\s*else\b", body[ke + 1:]):
+            raise Unsupported("R-continue: `if .. { continue; } else ..` is not rewritten")
+        # enclosing block: scan back to the '{' that opens the block containing `st`
+        d = 0
+        j = st - 1
+        while j >= 0:
+            if m[j]:
+                if body[j] == "}":
+                    d += 1
+                elif body[j] == "{":
+                    if d == 0:
+                        break
+                    d -= 1
+            j -= 1
+        if j < 0:
+            raise Unsupported("R-continue: enclosing block not found")
+        je = match_close(body, m, j)
+        rest = body[ke + 1:je]
+        new = body[st:k] + "{ } else {" + rest + "}"
+        log.append(("R-continue", norm_ws(body[st:ke + 1])[:120], norm_ws(body[st:k])[:80] + " { } else { <rest of the loop body> }"))
+        body = body[:st] + new + body[je:]
+
+
 def r_tryfold(body):
     """RECV.try_fold(INIT, |ACC, PAT| BODY)  ->  { let mut ACC = INIT; for PAT in RECV { ACC = (BODY)?; } ACC_OK }
     where the whole expression is in tail / `?` position; emitted as a block evaluating to Result: Ok(ACC).
@@ -1012,6 +1067,9 @@ def emit_fn(f, udir, unit_props, recs, log_global):
             log += l
         if "matchcount" in rewrites:
             body, l = r_matchcount(body)
+            log += l
+        if "continue" in rewrites:
+            body, l = r_continue(body)
             log += l
         if "flatmap" in rewrites:
             body, l = r_flatmap(body)
